@@ -707,6 +707,7 @@ type runner struct {
 	p        *mockProvider
 	r        *rec
 	cbSeen   bool
+	lateSent bool // the one message the data connection may still hand over after the close has been delivered
 	setup    bool
 	pendRej  bool
 	rejSince time.Time
@@ -873,6 +874,17 @@ func runScenario(id int, seed int64, maxEvents int) *scenario {
 			if postTerm > 4 {
 				break
 			}
+		}
+		if !open && !rn.lateSent && g.pick(2) == 0 {
+			// the data connection was closed while a message had just been read: that one message is still handed over
+			// (C13 bounds this by one); the connection must not act on it
+			rn.lateSent = true
+			if g.pick(3) == 0 {
+				rn.evMsg(g.randData())
+			} else {
+				rn.evMsg(g.inPhase(st))
+			}
+			continue
 		}
 		k := g.pick(100)
 		if connFuzz && n < fuzzDepth {
